@@ -91,6 +91,8 @@ impl Problem {
             "relax" => d[0] = -p * (y[0] - t.cos()),
             // -y until t = p, then the very stiff -1e4 y^3
             "switch3" => d[0] = if t < p { -y[0] } else { -1.0e4 * y[0] * y[0] * y[0] },
+            // -k(t) y^3 with k jumping from 1 to 1e4 at t = p: a step straddling the jump fails in Newton
+            "kjump3" => d[0] = -(if t < p { 1.0 } else { 1.0e4 }) * y[0] * y[0] * y[0],
             // leaves the domain of the right-hand side at t = 2 (y reaches 0): NaN afterwards
             "sqrtneg" => d[0] = -y[0].sqrt(),
             "robertson" => {
@@ -157,6 +159,7 @@ impl Problem {
             "cube" => j[0] = -3.0 * y[0] * y[0],
             "relax" => j[0] = -p,
             "switch3" => j[0] = if _t < p { -1.0 } else { -3.0e4 * y[0] * y[0] },
+            "kjump3" => j[0] = -3.0 * (if _t < p { 1.0 } else { 1.0e4 }) * y[0] * y[0],
             "sqrtneg" => j[0] = -0.5 / y[0].sqrt(),
             "robertson" => {
                 j[0] = -0.04;
